@@ -177,7 +177,7 @@ func runSync(name string, args []string, out, errOut io.Writer) error {
 		Submodules:         config.submodules,
 		Incremental:        true,
 		DryRun:             !config.force,
-	}, out); err != nil {
+	}, out, actions...); err != nil {
 		return err
 	}
 	if !config.force {
